@@ -313,6 +313,9 @@ class MulticomponentThermodynamics (GeneralThermodynamics):
                 return None
             else:
                 print(f'Warning: {calc_source} equilibrum was not able to be solved for, using results of previous calculation')
+                #The solver removes unstable phases from the cached composition sets, so they cannot be reused
+                #    Mark them as spent, the next calculation will start from a global equilibrium (previous results stay available)
+                self._compset_cache_curvature[precPhase] = []
                 return self._curvature_outputs[precPhase]
             
         x, T = _process_xT_arrays(x, T, self.numElements == 2)
